@@ -6,6 +6,7 @@ pub fn dispatch(op: &str, case: &Value) -> Value {
     match op {
         "from_until" => op_from_until(case),
         "version_header" => op_version_header(case),
+        "path" => op_path(case),
         _ => json!({"error": format!("unknown op {}", op)}),
     }
 }
@@ -40,4 +41,98 @@ fn op_version_header(case: &Value) -> Value {
         Ok(Ok(v)) => json!({"ok": v.to_string()}),
         Ok(Err(e)) => json!({"err": e.status_code.as_u16()}),
     }
+}
+
+// ---------------------------------------------------------------------------------- C03
+use dropshot::endpoint;
+use dropshot::ApiDescription;
+use dropshot::HttpError;
+use dropshot::HttpResponseOk;
+use dropshot::Path;
+use dropshot::RequestContext;
+use schemars::JsonSchema;
+use serde::Deserialize;
+
+#[derive(Deserialize, JsonSchema)]
+struct WildPath {
+    r: Vec<String>,
+}
+#[derive(Deserialize, JsonSchema)]
+struct VarPath {
+    x: String,
+}
+#[derive(Deserialize, JsonSchema)]
+struct Var2Path {
+    x: String,
+    y: String,
+}
+
+fn bytes_json(v: &[String]) -> Vec<Vec<u8>> {
+    v.iter().map(|s| s.as_bytes().to_vec()).collect()
+}
+
+#[endpoint { method = GET, path = "/{r:.*}", unpublished = true }]
+async fn echo_wild(_rqctx: RequestContext<()>, p: Path<WildPath>) -> Result<HttpResponseOk<Vec<Vec<u8>>>, HttpError> {
+    Ok(HttpResponseOk(bytes_json(&p.into_inner().r)))
+}
+#[endpoint { method = GET, path = "/{x}" }]
+async fn echo_var(_rqctx: RequestContext<()>, p: Path<VarPath>) -> Result<HttpResponseOk<Vec<Vec<u8>>>, HttpError> {
+    Ok(HttpResponseOk(bytes_json(&[p.into_inner().x])))
+}
+#[endpoint { method = GET, path = "/{x}/{y}" }]
+async fn echo_var2(_rqctx: RequestContext<()>, p: Path<Var2Path>) -> Result<HttpResponseOk<Vec<Vec<u8>>>, HttpError> {
+    let p = p.into_inner();
+    Ok(HttpResponseOk(bytes_json(&[p.x, p.y])))
+}
+
+fn path_api(route: &str) -> ApiDescription<()> {
+    let mut api = ApiDescription::new();
+    match route {
+        "wild" => api.register(echo_wild).unwrap(),
+        "var" => api.register(echo_var).unwrap(),
+        _ => api.register(echo_var2).unwrap(),
+    }
+    api
+}
+
+/// {"op":"path","raw":[bytes],"route":"wild"|"var"|"var2"}
+/// -> {"status": 200|400|404, "variables_debug": {...}, "handler_saw": [[bytes]]|null, "wire_status": n|null}
+fn op_path(case: &Value) -> Value {
+    let raw: Vec<u8> = case["raw"].as_array().unwrap().iter().map(|x| x.as_u64().unwrap() as u8).collect();
+    let route = case["route"].as_str().unwrap_or("wild");
+    let Ok(path) = String::from_utf8(raw.clone()) else {
+        return json!({"error": "raw path is not UTF-8"});
+    };
+    let router = path_api(route).into_router();
+    let r = crate::quiet(|| router.lookup_route(&http::Method::GET, path.as_str().into(), None));
+    let (status, vars) = match r {
+        Err(p) => return json!({"panic": p}),
+        Ok(Ok(res)) => (
+            200u16,
+            res.endpoint
+                .variables
+                .iter()
+                .map(|(k, v)| (k.clone(), Value::String(format!("{:?}", v))))
+                .collect::<serde_json::Map<String, Value>>(),
+        ),
+        Ok(Err(e)) => (e.status_code.as_u16(), serde_json::Map::new()),
+    };
+    // through a live server only if the bytes can be written as an HTTP/1.1 request target
+    let uri_safe = !raw.is_empty()
+        && raw[0] == b'/'
+        && raw.iter().all(|b| (0x21..=0x7e).contains(b) && !b"\"<>\\^`{|}#?".contains(b));
+    let (mut handler_saw, mut wire_status) = (Value::Null, Value::Null);
+    if uri_safe {
+        let mut rq = b"GET ".to_vec();
+        rq.extend_from_slice(&raw);
+        rq.extend_from_slice(b" HTTP/1.1\r\nHost: replay\r\nConnection: close\r\n\r\n");
+        let resp = crate::live::serve_raw(path_api(route), 1024, vec![vec![rq]]);
+        if let Some(Some(resp)) = resp.into_iter().next() {
+            wire_status = json!(resp.status);
+            if resp.status == 200 {
+                handler_saw = serde_json::from_slice(&resp.body).unwrap_or(Value::Null);
+            }
+        }
+    }
+    json!({"status": status, "variables_debug": vars, "handler_saw": handler_saw, "wire_status": wire_status})
 }
